@@ -122,9 +122,15 @@ func c06Concurrent(c *ctx) {
 					for i := g; i < 2*ringLen[k]; i += G {
 						done := mark(0, g, i)
 						req := &http.Request{Host: host, URL: &url.URL{Path: fmt.Sprintf("/g%d/i%d", g, i)}, Header: http.Header{}, RemoteAddr: fmt.Sprintf("10.%d.%d.1:999", g, i%250)}
-						x := t.Lookup(req, "", pickRR, match, gc, false)
+						var x *route.Target
+						pmsg := safely(func() { x = t.Lookup(req, "", pickRR, match, gc, false) })
 						done()
 						c.R.Eval(1)
+						if pmsg != "" {
+							c.R.Violate("c06:lookup-panic", "lookup on a weighted route panicked: "+pmsg, nil)
+							failed.Store(true)
+							return
+						}
 						if x == nil || counts[k][x.URL.Host] == nil {
 							if !failed.Swap(true) {
 								c.R.Violate("c06:weighted-wrong-target", fmt.Sprintf("lookup for %s returned %v", host, x), nil)
@@ -230,9 +236,15 @@ func c06Unique(c *ctx, t, tg route.Table, gc *route.GlobCache, g, i int, failed 
 	p := fmt.Sprintf("/p/g%d/i%d", g, i)
 	req := &http.Request{Host: "redir.test", URL: &url.URL{Path: p, RawQuery: fmt.Sprintf("x=%d-%d", g, i)}, Header: http.Header{}}
 	done := mark(1, g, i)
-	x := t.Lookup(req, "", route.Picker["rr"], route.Matcher["prefix"], gc, false)
+	var x *route.Target
+	pm := safely(func() { x = t.Lookup(req, "", route.Picker["rr"], route.Matcher["prefix"], gc, false) })
 	done()
 	c.R.Eval(1)
+	if pm != "" {
+		c.R.Violate("c06:lookup-panic", "lookup on a redirect route panicked: "+pm, nil)
+		failed.Store(true)
+		return
+	}
 	want := "http://new.test" + p + "?" + req.URL.RawQuery
 	if x == nil || x.RedirectURL == nil || x.RedirectURL.String() != want {
 		got := "<nil>"
@@ -271,12 +283,19 @@ func c06Unique(c *ctx, t, tg route.Table, gc *route.GlobCache, g, i int, failed 
 	}
 	req = &http.Request{Host: "acl.test", URL: &url.URL{Path: "/"}, Header: http.Header{}, RemoteAddr: ra}
 	done = mark(3, g, i)
-	x = t.Lookup(req, "", route.Picker["rr"], route.Matcher["prefix"], gc, false)
 	var got bool
-	if x != nil {
-		got = x.AccessDeniedHTTP(req)
-	}
+	pm = safely(func() {
+		x = t.Lookup(req, "", route.Picker["rr"], route.Matcher["prefix"], gc, false)
+		if x != nil {
+			got = x.AccessDeniedHTTP(req)
+		}
+	})
 	done()
+	if pm != "" {
+		c.R.Violate("c06:lookup-panic", "lookup on an access-rule route panicked: "+pm, nil)
+		failed.Store(true)
+		return
+	}
 	c.R.Eval(1)
 	if x == nil || got != denied {
 		c.R.Violate("c06:access-decision", fmt.Sprintf("peer %s on acl.test: denied=%v want %v", ra, got, denied), nil)
